@@ -508,7 +508,7 @@ pub fn run(ctx: &RunCtx) -> i32 {
         println!("VIOLATION property={} replay={}", ctx.id, path);
         return 1;
     }
-    let (stats, failure) = run_sharded(ctx, "altroot", ctx.tier.pick(2500, 30_000), strategy, test);
+    let (stats, failure) = run_sharded(ctx, "altroot", ctx.tier.pick(4000, 150_000), strategy, test);
     write_evidence(ctx, "exploration", RULE, &stats, json!({"regress_replayed": reg.replayed}), &["symlinks are excluded by the property", "direct FileSystem-trait calls with non-canonical strings are outside the documented precondition and not generated", "the '/' and cwd listings are compared per case; shards run concurrently, so an escape is attributed to the case that observes it"], failure.is_some() as u32);
     finish(ctx, &stats, &failure, &[("distinct_nontrivial", 100), ("under:phys", 20), ("under:overlay", 20), ("altroot_of_altroot", 20), ("direct_backend_root", 20)])
 }
